@@ -267,11 +267,47 @@ def check_units(prog, rep):
     rep.add('U2', gd, entry, 'returns _to_meters(distance, unit)', gd.node.lineno, okr, 'the parsed distance is converted to metres')
     cc = m.funcs.get('calc_cellsize')
     if cc is not None:
-        t = [norm(s).replace(' ', '') for s in cc.own_nodes() if isinstance(s, (ast.Assign, ast.Return))]
-        ok = 'cellsize_x,cellsize_y=get_dataarray_resolution(raster)' in t and 'cellsize_x=_to_meters(cellsize_x,unit)' in t and \
-            'cellsize_y=_to_meters(cellsize_y,unit)' in t and 'return(cellsize_x,np.abs(cellsize_y))' in t
+        from ..wterm import WT, key as tkey, resolve, show as tshow
+        gdr = prog.module('utils').funcs.get('get_dataarray_resolution')
+        tm_ = m.funcs.get('_to_meters')
+        w = WT(prog, keep=[x for x in (gdr, tm_) if x is not None])
+        ret = w.run(cc)
+        rp = ('param', cc.params[0])
+        env = {'raster': rp}
+        res_t = [x.result for x in w.calls if x.callee is gdr]
+        ok, why = None, 'returned value not understood'
+        if ret is not None and ret[0] == 'tuple' and len(ret[1]) == 2 and len(res_t) == 1:
+            def strip_abs(t_):
+                if t_[0] == 'call' and t_[1] in ('numpy.abs', 'numpy.absolute', 'builtins.abs', ('global', 'abs')) and len(t_[2]) == 1:
+                    return t_[2][0], True
+                return t_, False
+            comps = []
+            for k_, t_ in enumerate(ret[1]):
+                t_, ab = strip_abs(t_)
+                if t_[0] == 'call' and tm_ is not None and t_[1] == tm_.qualname and len(t_[2]) + len(t_[3]) == 2:
+                    b_ = dict(zip(tm_.params, t_[2]))
+                    b_.update(dict(t_[3]))
+                    v_, ab2 = strip_abs(b_.get(tm_.params[0]))
+                    comps.append((k_, v_, b_.get(tm_.params[1]), ab or ab2))
+            if len(comps) == 2:
+                units = []
+                for has in (True, False):
+                    def decide(cnd, has=has):
+                        if "'unit'" in tkey(cnd) and 'attrs' in tkey(cnd):
+                            if cnd[0] == 'cmp' and cnd[1] in ('In', 'NotIn'):
+                                return has if cnd[1] == 'In' else not has
+                        return None
+                    units.append([resolve(c_[2], decide) for c_ in comps])
+                want_has = w.expr("raster.attrs['unit']", env, cc)
+                alt_get = w.expr("raster.attrs.get('unit', DEFAULT_UNIT)", env, cc)
+                dflt = w.expr('DEFAULT_UNIT', env, cc)
+                unit_ok = all(tkey(u) in (tkey(want_has), tkey(alt_get)) for u in units[0]) and \
+                    all(tkey(u) in (tkey(dflt), tkey(alt_get)) for u in units[1])
+                comp_ok = all(tkey(c_[1]) == tkey(('index', res_t[0], ('const', c_[0]))) for c_ in comps)
+                ok = unit_ok and comp_ok and comps[1][3]
+                why = 'components (x, y) from the resolution pair: %s; unit from attrs or the default: %s; |y|: %s' % (comp_ok, unit_ok, comps[1][3])
         rep.add('U3', cc, entry, 'calc_cellsize: (x, y) resolution converted to metres', cc.node.lineno, ok,
-                'cell sizes are taken as (x, y) from the resolution helper and converted with the raster\'s unit')
+                'cell sizes are taken as (x, y) from the resolution helper and converted with the raster\'s unit; ' + why)
 
 
 def check_kernels(prog, rep):
@@ -424,12 +460,30 @@ def check_kernels(prog, rep):
     rep.add('E4', ak, entry, norm(pads[0])[:140] if pads else 'np.pad call', ak.node.lineno, okp,
             'the inner circle must be centred: equal zero pads before and after on each axis (rows with the row '
             'difference, columns with the column difference)')
+    # custom kernels: rejected unless an ndarray with an odd number of rows and of columns - the raise conditions evaluated
+    from ..wterm import WT, eval_cond, key as tkey
     cu = m.funcs.get('custom_kernel')
-    t = {norm(i.test).replace(' ', ''): i for i in cu.own_nodes() if isinstance(i, ast.If)}
-    ok1 = any(k == 'notisinstance(kernel,np.ndarray)' and any(isinstance(x, ast.Raise) for x in i.body) for k, i in t.items())
-    ok2 = any(k in ('rows%2==0orcols%2==0', '(rows%2==0orcols%2==0)') and any(isinstance(x, ast.Raise) for x in i.body) for k, i in t.items())
-    rep.add('E5', cu, entry, 'custom_kernel validation', cu.node.lineno, ok1 and ok2,
-            'custom kernels must be ndarrays of odd shape on both axes')
+    w = WT(prog)
+    w.run(cu)
+    kp = ('param', cu.params[0])
+    isnd = w.expr('isinstance(k, np.ndarray)', {'k': kp}, cu)
+    res = []
+    try:
+        for nd, r_, c_, want in ((1, 3, 3, False), (1, 5, 7, False), (1, 2, 3, True), (1, 3, 4, True), (1, 4, 4, True), (0, 3, 3, True)):
+            bound = {tkey(isnd): nd, tkey(w.expr('k.shape[0]', {'k': kp}, cu)): r_, tkey(w.expr('k.shape[1]', {'k': kp}, cu)): c_}
+            hit = False
+            for guards, node in w.raises:
+                try:
+                    if all(eval_cond(g, {'__terms__': bound}) for g in guards):
+                        hit = True
+                except ValueError:
+                    continue
+            res.append(((nd, r_, c_), hit, want))
+        ok5 = all(h == w_ for _, h, w_ in res)
+    except ValueError:
+        ok5 = None
+    rep.add('E5', cu, entry, 'custom_kernel validation', cu.node.lineno, ok5,
+            'custom kernels must be ndarrays of odd shape on both axes; (ndarray, rows, cols) -> rejected: %s' % [(a, h) for a, h, w_ in res])
 
 
 def check(prog, rep):
